@@ -102,13 +102,33 @@ class Evaluator:
         return None
 
     def consume(self, tree):
-        name, kids = tree
+        name, kids = tree[0], tree[1]
         fn = self.fns.get(name)
         if fn is None or self.g.is_atomic(name) or name == "EOI":
-            return ("atom", name)
+            # a marked tree (name, kids, marker) keeps apart two tokens of the same kind (the quantity's number, the price's)
+            return ("atom", name) if len(tree) < 3 else ("atom", name, tree[2])
         mn = self._match_nodes_of(fn)
         if mn is None:
+            # the consumer has no match_nodes! of its own and does not merely delegate in tail position: evaluate its whole
+            # body with the parameter bound to this node (`let (t, r) = ratio_args(input)?; Ok((t, Operation::Split { ratio: r }))`);
+            # a match_nodes! met on the way is evaluated against the node in scope
+            if fn.get("body_ast") and fn.get("params") and self.depth < 6:
+                env = {}
+                self.bind(fn["params"][0], ("node", tree), env)
+                self.depth += 1
+                try:
+                    v = self.ev(fn["body_ast"], env)
+                finally:
+                    self.depth -= 1
+                if v and v[0] == "ok":
+                    v = v[1]
+                if v and v[0] in ("tuple", "struct", "some", "iter", "array"):
+                    return v
             return ("atom", name)
+        return self._eval_mn(mn, tree)
+
+    def _eval_mn(self, mn, tree):
+        name, kids = tree[0], tree[1]
         seq = tuple(k[0] for k in kids)
         for arm in mn["arms"]:
             if not arm_accepts(arm["pattern"], seq):
@@ -164,6 +184,21 @@ class Evaluator:
                     self.bind(p, ("proj", val, i), env)
         elif k == "ts" and pat["path"].split("::")[-1] == "Some" and val[0] == "some":
             self.bind(pat["e"][0], val[1], env)
+        elif k == "other" and "{" in pat.get("s", "") and pat["s"].rstrip().endswith("}"):
+            # a struct pattern `TradeArgs { ticker, amount: qty, .. }` (srcfacts hands it over as text)
+            inner = pat["s"][pat["s"].index("{") + 1:pat["s"].rstrip().rindex("}")]
+            for part in inner.split(","):
+                part = part.strip()
+                if not part or part == "..":
+                    continue
+                fld, _, bnd = part.partition(":")
+                fld, bnd = fld.strip(), (bnd.strip() or fld.strip())
+                for w in ("ref ", "mut "):
+                    fld = fld.replace(w, "").strip()
+                    bnd = bnd.replace(w, "").strip()
+                if not bnd.isidentifier():
+                    continue
+                env[bnd] = val[2][fld] if val[0] == "struct" and fld in val[2] else ("proj", val, fld)
         # wildcards and the rest bind nothing
 
     def pat_matches(self, pat, val):
@@ -248,6 +283,9 @@ class Evaluator:
                     return ("opaque", "match")
             return ("opaque", "match")
         if k == "match_nodes":
+            nodes = [v for v in env.values() if isinstance(v, tuple) and v and v[0] == "node"]
+            if len(nodes) == 1 and e.get("mn"):
+                return self._eval_mn(e["mn"], nodes[0][1])
             return ("opaque", "match_nodes")
         if k == "macro":
             return ("macro", e["name"], e["tokens"])
@@ -276,7 +314,7 @@ class Evaluator:
             return ("none",)
         h = self.fns.get(last) if ("::" not in name or name.startswith("Self::")) else None
         if h is not None and h.get("body_ast") and len(h.get("params", [])) == len(args) and self.depth < 6 \
-                and not self.g.rules.get(last):
+                and (not self.g.rules.get(last) or not h.get("impl") or any(isinstance(a, tuple) and a and a[0] == "node" for a in args)):
             env = {}
             for p, a in zip(h["params"], args):
                 self.bind(p, a, env)
@@ -340,6 +378,25 @@ class Evaluator:
         if m in ("clone", "to_owned", "into", "to_string", "as_str", "as_ref", "borrow", "copied", "cloned") and not args:
             return r
         return ("mcall", m, r, args)
+
+
+def marked(tree, path=()):
+    """copy of a derivation tree whose every node carries its position as a third component"""
+    kids = tree[1] if len(tree) > 1 and isinstance(tree[1], (list, tuple)) else []
+    return (tree[0], [marked(k, path + (i,)) for i, k in enumerate(kids) if isinstance(k, tuple)], path)
+
+
+def atoms_in(term):
+    out = set()
+    if isinstance(term, tuple) and len(term) == 3 and term[0] == "atom":
+        out.add(term)
+    elif isinstance(term, (tuple, list)):
+        for x in term:
+            out |= atoms_in(x)
+    elif isinstance(term, dict):
+        for x in term.values():
+            out |= atoms_in(x)
+    return out
 
 
 def contains(term, sub):
